@@ -5,6 +5,13 @@ from engine.report import Report
 from props import seminaive as S, parallel_guard
 
 MUTANTS = [
+    ('subsumption-interleaved-per-relation', S.UT, '''        appendStmt(loopBody, mk<ram::Sequence>(std::move(relClauses)));
+    }
+
+    // translating subsumptive clauses
+    for (const ast::Relation* rel : scc) {
+        auto relClauses = translateSubsumptiveRecursiveClauses(scc, rel);''', '''        appendStmt(loopBody, mk<ram::Sequence>(std::move(relClauses)));
+        relClauses = translateSubsumptiveRecursiveClauses(scc, rel);''', 'R2'),
     ('dominating-head-reads-new-in-delete', S.UTILS, '                case SubsumeDeleteCurrentDelta: return getDeltaRelationName(atom->getQualifiedName());',
      '                case SubsumeDeleteCurrentDelta: return getNewRelationName(atom->getQualifiedName());', 'R1'),
     ('reject-not-cleared', S.UT, '    appendStmt(code, mk<ram::Clear>(rejectRelation));\n', '', 'R2'),
@@ -21,6 +28,7 @@ def analyse(rep):
     n = S.rule_atom_name(rep, sh, 'sub')
     rep.floor('R1-abstract-inputs', n or 0, 30)
     S.rule_subsumption_sequence(rep, sh)
+    S.rule_loop_body_phases(rep, sh)
     S.rule_table_updates(rep, sh, want=('subsumptive',))
     S.rule_exit(rep, sh)
     # R3: Erase is never parallelised (erase takes no lock) -- shared rule C03-R1
